@@ -67,7 +67,7 @@ Qed.
 (* ---- causes ---------------------------------------------------------------------------- *)
 Definition cause (s : shared) (r : Z) : Prop :=
   (r = rkill /\ killed s = true) \/
-  (exists m, In (mid m) (handled s) /\ ((mbeh m = BErr r) \/ (mbeh m = BPanic /\ r = rpanic))).
+  (exists m, In (mid m) (handled s) /\ ((mbeh m = BErr r) \/ (mbeh m = BExit r) \/ (mbeh m = BPanic /\ r = rpanic))).
 
 Definition pc_ok (s : shared) (p : pc) : Prop :=
   match p with
@@ -164,7 +164,7 @@ Proof.
       try (apply in_or_app; right; left; reflexivity);
       try (intros r0 E0; inversion E0; subst; assumption);
       try (intros; congruence).
-    all: try (right; eexists; split; [eassumption|]; first [left; eassumption | right; split; [eassumption|reflexivity]]).
+    all: try (right; eexists; split; [first [eassumption | apply in_or_app; right; left; reflexivity]|]; first [left; eassumption | right; left; eassumption | right; right; split; [eassumption|reflexivity]]).
     all: try (left; split; [reflexivity|]; destruct (Hown eq_refl) as [H|H]; [rewrite H in *; discriminate|apply HZ; exact H]).
     all: try (intros r0 E0; inversion E0; subst; left; split; [reflexivity|assumption]).
     all: try (intros r0 Hr0; eapply cause_ext; [exact Hext|apply HT; exact Hr0]).
